@@ -61,6 +61,16 @@ def exit_cases():
         ("def f() do for c in 'ab' do if c == 'b' then continue; end; 'done' end; f()", ('text', "'done'")),
         ("def r = []; for x in <<3, 1, 2>> do if x == 2 then continue; append(r, x) end; r", ('text', "[1, 3]")),
         ("def r = []; for v in values <<<'b' => 1, 'a' => 2>>> do if v == 2 then continue; append(r, v) end; append(r, 0); r", ('text', "[1, 0]")),
+        # a loop visits the elements the collection holds NOW: enumerate, change (add / remove / assign), enumerate again
+        ("def s = <<3, 1, 2>>; def r = []; for x in s do append(r, x) end; remove(s, 2); for x in s do append(r, x) end; r", ('text', "[1, 2, 3, 1, 3]")),
+        ("def s = <<3, 1>>; def r = [string(s)]; append(s, 2); append(r, [x for x in s]); remove(s, 1); append(r, [x for x in s]); append(r, string(s)); r",
+         ('text', "['<<1, 3>>', [1, 2, 3], [2, 3], '<<2, 3>>']")),
+        ("def m = <<<'b' => 1, 'a' => 2>>>; def r = []; for k in keys m do append(r, k) end; remove(m, 'a'); m['c'] = 3; for k in keys m do append(r, k) end; r",
+         ('text', "['a', 'b', 'b', 'c']")),
+        ("def m = <<<1 => 'x'>>>; def r = [[e for e in entries m]]; m[0] = 'y'; append(r, [e for e in entries m]); remove(m, 1); append(r, [v for v in values m]); r",
+         ('text', "[[[1, 'x']], [[0, 'y'], [1, 'x']], ['y']]")),
+        ("def l = [1, 2, 3]; def r = []; for x in l do append(r, x) end; delete_at(l, 0); for x in l do append(r, x) end; r", ('text', "[1, 2, 3, 2, 3]")),
+        ("def s = <<'b', 'a'>>; def t = <<x for x in s>>; remove(s, 'a'); [[...s], [...t], length(s), 'a' in s]", ('text', "[['b'], ['a', 'b'], 1, FALSE]")),
         # a loop variable hides a variable of the same name only while the loop runs
         ("def j = 7; for j in [1, 2] do j end; j", ('text', "7")), ("def j = 7; def r = []; for j in [1, 2] do append(r, j) end; [r, j]", ('text', "[[1, 2], 7]")),
         ("def a = 1; def b = 2; for [a, b] in [[5, 6], [7, 8]] do a + b end; [a, b]", ('text', "[1, 2]")),
